@@ -347,6 +347,23 @@ def r4(prog, rep):
     # reproducibility with number_of_processors > 1: results are assembled by task index, not by
     # completion order (rule instances of C13.R1)
     rep.rule("R5", "premise: the parallel map returns results in task order whatever the completion order (C13.R1)")
+    # the embedded YAML is the merged option dict with the mesh's values last: it reproduces the
+    # grid only because Mesh.__init__ refuses settings that differ from the equilibrium's
+    rep.rule("R6", "premise: Mesh.__init__ compares every equilibrium option with the mesh's evaluated options and raises on a difference (C12.R2)")
+    from . import c12 as _c12
+    from ..report import Premise as _P2
+
+    class _Only:
+        """files only the option-consistency guard of C12.R2 under the premise"""
+        def __init__(self, rep_):
+            self._r = _P2(rep_, "R6", "C12")
+        def ob(self, rule, instance, ok, site, detail="", key=None):
+            if "options consistent" in instance:
+                self._r.ob(rule, instance, ok, site, detail, key=key)
+        def __getattr__(self, nm):
+            a = getattr(self._r, nm)
+            return (lambda *x, **k: None) if nm in ("floor", "rule", "undecided", "analysed_add", "trust", "assume") else a
+    _c12.r2(prog, _Only(rep))
     from ..report import Premise as _Premise
     from . import c13 as _c13
     _pm = prog.module(_c13.PM)
